@@ -3,28 +3,74 @@ from props.common import *
 
 K = lambda k: {"t": "key", "k": k}
 OUTS = ["x", "y", "z", "1"]
+OUTS2 = ["7", "8", "9", "0"]      # listed actions of a second tap-dance key (distinct from the first key's)
+
+
+def td_params(key, eager, T, outs, red, others):
+    return {"k": cfgdesc.code(key), "T": T, "outs": [cfgdesc.code(o) for o in outs], "eager": eager,
+            "others": [{"c": cfgdesc.code(c), "o": cfgdesc.code(o)} for c, o in others], "red": red}
 
 
 def make(eager, T, nacts, red, keys=("a", "b")):
+    """one tap-dance key (a) + one or two plain keys"""
     td = {"t": "td", "timeout": T, "acs": [K(o) for o in OUTS[:nacts]], "eager": eager}
     layer = {"a": td, "b": K("q")}
     if len(keys) > 2:
         layer["c"] = K("w")
     desc = {"keys": list(keys), "layers": [layer], "defcfg": {"rapid-event-delay": red}}
-    params = {"k": cfgdesc.code("a"), "T": T, "outs": [cfgdesc.code(o) for o in OUTS[:nacts]], "eager": eager,
-              "others": [{"c": cfgdesc.code("b"), "o": cfgdesc.code("q")}] +
-                        ([{"c": cfgdesc.code("c"), "o": cfgdesc.code("w")}] if len(keys) > 2 else []),
-              "red": red}
+    params = td_params("a", eager, T, OUTS[:nacts], red, [("b", "q")] + ([("c", "w")] if len(keys) > 2 else []))
     return desc, params
+
+
+def make2(A, B, red, plain=False):
+    """two tap-dance keys a, b (each (eager, T, nacts)) in one configuration (+ a plain key c): the count of one is
+    ended by the press of the other, which starts its own"""
+    tds, layer = [], {}
+    for key, outs, (eager, T, nacts) in (("a", OUTS, A), ("b", OUTS2, B)):
+        layer[key] = {"t": "td", "timeout": T, "acs": [K(o) for o in outs[:nacts]], "eager": eager}
+        tds.append(td_params(key, eager, T, outs[:nacts], red, [("c", "w")] if plain else []))
+    keys = ["a", "b"] + (["c"] if plain else [])
+    if plain:
+        layer["c"] = K("w")
+    desc = {"keys": keys, "layers": [layer], "defcfg": {"rapid-event-delay": red}}
+    return desc, {"tds": tds}
+
+
+def form(e):
+    return "eager" if e else "lazy"
 
 
 def family(tier):
     if tier == "quick":
-        combos = [(False, 3, 3, 1), (False, 2, 2, 1), (True, 3, 3, 1), (False, 3, 1, 0), (True, 2, 4, 1)]
+        combos = [(False, 3, 3, 1), (False, 2, 2, 1), (True, 3, 3, 1), (False, 3, 1, 0), (True, 2, 4, 1),
+                  # eager dances continued past the end of the list (L + 2 taps in succession), L = 1, 2
+                  (True, 3, 2, 1), (True, 2, 1, 0)]
+        pairs = [((True, 3, 2), (True, 3, 2), 1, False), ((True, 2, 2), (False, 2, 2), 1, False),
+                 ((False, 2, 2), (False, 2, 1), 0, False)]
     else:
         combos = [(e, T, n, r) for e in (False, True) for T in (2, 3) for n in (1, 2, 3, 4) for r in (0, 1)] + \
                  [(False, 4, 3, 5), (True, 4, 3, 5)]
-    return [("%s_T%d_n%d_r%d" % ("eager" if e else "lazy", T, n, r), make(e, T, n, r)) for (e, T, n, r) in combos]
+        pairs = [((True, 3, 2), (True, 3, 2), 1, False), ((True, 2, 2), (False, 2, 2), 1, False),
+                 ((False, 2, 2), (False, 2, 1), 0, False),
+                 ((True, 3, 3), (True, 2, 2), 0, False), ((True, 3, 2), (True, 3, 3), 1, True),
+                 ((True, 3, 3), (False, 3, 2), 0, False), ((False, 3, 2), (True, 2, 3), 1, False),
+                 ((False, 2, 2), (False, 3, 2), 1, False)]
+    fam = [("%s_T%d_n%d_r%d" % (form(e), T, n, r), make(e, T, n, r)) for (e, T, n, r) in combos]
+    fam += [("two_%s_T%d_n%d_%s_T%d_n%d_r%d%s" % (form(A[0]), A[1], A[2], form(B[0]), B[1], B[2], r, "_c" if pl else ""),
+             make2(A, B, r, pl)) for (A, B, r, pl) in pairs]
+    return fam
+
+
+def all_params(params):
+    return params["tds"] if "tds" in params else [params]
+
+
+def cover_scripts(path, rng, head=120, sample=120):
+    """COVER witnesses (TLC: one shortest history per composed state of the class): the shortest `head` + a seeded
+    sample of the rest, as harness scripts."""
+    ws = flow.witness_scripts(path, 10 ** 9)
+    pick = ws[:head] + (rng.sample(ws[head:], min(sample, len(ws) - head)) if len(ws) > head else [])
+    return len(ws), [flow.hist_to_script(w["h"], 30) for w in pick]
 
 
 def run(tier, seed):
@@ -32,30 +78,44 @@ def run(tier, seed):
     res = flow.Result(pid, tier, seed)
     rng = random.Random(seed)
     wd = workdir("c17")
-    jobs_random, witness_jobs = [], []
+    jobs_random, witness_jobs, cover_jobs = [], [], []
+    n_cover = 0
     for name, (desc, params) in family(tier):
         kbd = cfgdesc.render_kbd(desc)
         keys = [cfgdesc.code(k) for k in desc["keys"]]
         inst = {"name": "c17_" + name, "kbd": kbd, "keys": keys, "qmax": 3,
                 "monitor": {"module": "P_C17", "params": params},
-                # a swallowed tap (known finding) stays unconsumed for ever; histories that pile up more than
-                # two unconsumed taps are not expanded further (the monitor flags them at the next idle point)
-                "constraint": "TapBound", "extra_defs": "TapBound == mon.err # \"\" \/ mon.taps <= %d" % (len(params["outs"]) + 1)}
-        r = mc.check_instance(inst, wd, workers=8, timeout=1500)
+                # histories that pile up more unconsumed taps of a key than its list length + 1 are not expanded
+                # further (a swallowed tap stays unconsumed for ever; the monitor flags it at the next idle point).
+                # Eager taps are consumed one tick after they are typed, so this does not bound eager successions:
+                # those are explored up to the monitor's succession depth (list length + 2, capped counter `succ`)
+                "constraint": "TapBound",
+                "invariants": ["StutterProbe", "CoverProbe"], "extra_tags": ["COVER"],
+                "extra_defs": "TapBound == mon.err # \"\" \\/ Mon!TapsBounded(mon)\n"
+                              "CoverProbe == ~Mon!CoverClass(mon) \\/ PrintT(<<\"COVER\", ToJson([h |-> hist])>>)"}
+        r = mc.check_instance(inst, wd, workers=6, timeout=1500)
         res.add_instance(r)
-        if len(res.samples) < 3:
+        if len(res.samples) < 3 or (name.startswith("two_") and len(res.samples) < 5):
             res.samples.append({"instance": name, "kbd": kbd, "states": r["states"], "edges": r.get("edges")})
         ws = flow.witness_scripts(r["monerr_file"], 40) + flow.witness_scripts(r["panic_file"], 10)
         scripts = [flow.hist_to_script(w["h"], 60) for w in ws] + \
                   [flow.hist_to_script(d["h"], 60) for d in r.get("drift_samples", [])]
         if scripts:
             witness_jobs.append({"cfg": kbd, "params": params, "tag": "w:" + name, "scripts": scripts})
+        # class witnesses enumerated by TLC (taps past the end of an eager list; a dance begun by interrupting another
+        # key's dance): recorded from the real code and judged by the monitor whether or not the replay drifted
+        nc, cs = cover_scripts(r["cover_file"], rng, *((120, 120) if tier == "quick" else (600, 600)))
+        n_cover += nc
+        if cs:
+            cover_jobs.append({"cfg": kbd, "params": params, "tag": "c:" + name, "scripts": cs})
         n = 30 if tier == "quick" else 200
-        T = params["T"]
-        scripts = [rand_history(rng, keys, rng.randint(4, 40 if tier == "quick" else 200),
-                                [0, 1, 1, max(T - 1, 0), T, T + 1, 3 * T], tail=120) for _ in range(n)]
+        Ts = sorted({p["T"] for p in all_params(params)})
+        gaps = [0, 1, 1] + [g for T in Ts for g in (max(T - 1, 0), T, T + 1)] + [3 * Ts[-1]]
+        scripts = [rand_history(rng, keys, rng.randint(4, 40 if tier == "quick" else 200), gaps, tail=120)
+                   for _ in range(n)]
         jobs_random.append({"cfg": kbd, "params": params, "tag": "r:" + name, "scripts": scripts})
-    for label, jobs in (("witness", witness_jobs), ("random", jobs_random)):
+    res.extra["class_witness_states"] = n_cover
+    for label, jobs in (("witness", witness_jobs), ("cover", cover_jobs), ("random", jobs_random)):
         if not jobs:
             continue
         jobs = shard_local_index(jobs)
@@ -68,10 +128,14 @@ def run(tier, seed):
                           "%s_%d" % (label, len(res.violations)))
         if label == "random":
             res.samples.append({"random_history": jobs[0]["scripts"][0][:30], "cfg": jobs[0]["cfg"]})
+        if label == "cover":
+            res.samples.append({"class_witness": jobs[0]["scripts"][0][:30], "cfg": jobs[0]["cfg"]})
     return flow.finish(
         res, "model_checking",
-        "TLC explores L1||P_C17 for every physically consistent schedule over the tap-dance key and one other key "
-        "(<=4 pending, every gap) per form/timeout/list-length instance; every model transition is replayed on the real code; "
-        "model-level counterexamples and random schedules (gaps around T) are recorded from the code and validated by TLC "
-        "against P_C17.",
+        "TLC explores L1||P_C17 for every physically consistent schedule over one tap-dance key and one other key, or two "
+        "tap-dance keys (eager+eager, eager+lazy, lazy+lazy) (<=4 pending, every gap; eager successions up to list "
+        "length + 2 taps) per form/timeout/list-length instance; every model transition is replayed on the real code; "
+        "model-level counterexamples, TLC-enumerated class witnesses (taps past the end of an eager list, a dance begun "
+        "by interrupting another key's dance) and random schedules (gaps around T) are recorded from the code and "
+        "validated by TLC against P_C17.",
         assumptions=["deterministic stepper", "listed actions are distinct otherwise-unused keys"])
